@@ -1,7 +1,7 @@
 (** C13 - a constraint error accounts for every input byte.
     Statement file: theorem statements, [exact], Print Assumptions only. *)
 From Coq Require Import ZArith List.
-From TV Require Import Layout.Types Model.Monad Model.Message Model.Pump Proofs.Account.
+From TV Require Import Layout.Types Model.Monad Model.Message Model.Pump Proofs.Account Proofs.Tiling Proofs.WTiling Proofs.Balance.
 Import ListNotations.
 
 (** For every table set, mode, root type and input: if decoding raises a constraint-violation error with
@@ -20,3 +20,23 @@ Theorem C13_every_run_balances :
   forall T abort r s tr s' o, dec_root T abort r s = (tr, s', o) -> inp s = bytes_of tr ++ inp s'.
 Proof. exact accounts_dec_root. Qed.
 Print Assumptions C13_every_run_balances.
+
+(** the balance block by block (strict mode, any root but a stream, every input): when a constraint error is raised,
+    input = bytes of the complete blocks [pre] (structure events, primitives with exactly the bytes of their value)
+    ++ the bytes consumed for the offending field [off] ++ the remainder reported with the error; the events shown
+    are exactly those of the complete blocks - none for the offending field; for an overrun the consumed offending
+    bytes are the rest of the violated region, exactly limit - counted bytes *)
+Theorem C13_input_is_fields_then_offending_bytes_then_remainder :
+  forall T r input evs e rem, is_stream_root r = false -> decode T true r input = (evs, ORaised e rem) ->
+    exists pre off, wt pre /\ input = bytes_of pre ++ off ++ rem /\ map fst evs = filter not_rd pre /\
+                    match e with EExceeded c _ _ => tail_of c off | _ => True end.
+Proof. exact raised_input_is_fields_offending_remainder. Qed.
+Print Assumptions C13_input_is_fields_then_offending_bytes_then_remainder.
+
+(** the same for the decoder's run under every root (streams included) *)
+Theorem C13_raised_run_is_fields_then_offending_bytes :
+  forall T r bs tr s' e, dec_root T true r (init_st bs) = (tr, s', Fail e) ->
+    exists pre off, tr = pre ++ map Rd off /\ wt pre /\ bs = bytes_of pre ++ off ++ inp s' /\
+                    match e with EExceeded c _ _ => tail_of c off | _ => True end.
+Proof. exact raised_run_is_fields_then_offending_bytes. Qed.
+Print Assumptions C13_raised_run_is_fields_then_offending_bytes.
